@@ -2,6 +2,7 @@
 //! Every subcommand runs the real code of the tree it was built against.
 
 mod common;
+mod sched;
 mod seq;
 
 fn main() {
@@ -12,6 +13,7 @@ fn main() {
     }
     let code = match args[1].as_str() {
         "seq" => seq::main(&args[2..]),
+        "sched" => sched::main(&args[2..]),
         other => {
             eprintln!("unknown subcommand {other}");
             2
